@@ -35,6 +35,13 @@ func randSel(rng *rand.Rand, shape []int, maxStep int) (loc, dims, step []int) {
 	for d := 0; d < r; d++ {
 		step[d] = 1 + rng.Intn(maxStep)
 		loc[d] = rng.Intn(shape[d])
+		if shape[d] >= 8 && rng.Intn(2) == 0 {
+			// a long axis: half of the selections keep (nearly) all of it at unit step
+			step[d] = 1
+			loc[d] = rng.Intn(2)
+			dims[d] = shape[d] - loc[d] - rng.Intn(2)
+			continue
+		}
 		maxLen := (shape[d]-1-loc[d])/step[d] + 1
 		dims[d] = 1 + rng.Intn(maxLen)
 	}
@@ -77,6 +84,9 @@ func ndTraceEngine(args []string) error {
 			backend = forceBackend
 		}
 		rank := 1 + rng.Intn(3)
+		if t%6 == 5 {
+			rank = 3
+		}
 		shape := make([]int, rank)
 		for {
 			for d := range shape {
@@ -84,6 +94,23 @@ func ndTraceEngine(args []string) error {
 			}
 			if prod(shape) <= 60 && prod(shape) >= 2 {
 				break
+			}
+		}
+		if t%3 == 2 {
+			// every third history lives in a store with one LONG axis (8..16) and short other axes: block-copy fast
+			// paths that only engage above a length threshold are otherwise never reached
+			for {
+				for d := range shape {
+					shape[d] = 1 + rng.Intn(4)
+				}
+				if rank == 3 || rng.Intn(2) == 0 {
+					shape[rank-1] = 8 + rng.Intn(9) // the innermost axis (unit stride)
+				} else {
+					shape[rng.Intn(rank)] = 8 + rng.Intn(9)
+				}
+				if prod(shape) <= 200 {
+					break
+				}
 			}
 		}
 		n := prod(shape)
@@ -266,10 +293,14 @@ func ndTraceEngine(args []string) error {
 						if !v.v.HasHelpers() {
 							continue
 						}
-						fn := []string{"scale", "addto", "func"}[rng.Intn(3)]
+						fn := []string{"scale", "addto", "func", "scale1", "scale0"}[rng.Intn(5)]
 						switch fn {
 						case "scale":
 							v.v.Scale(src, 2)
+						case "scale1":
+							v.v.Scale(src, 1)
+						case "scale0":
+							v.v.Scale(src, 0)
 						case "addto":
 							v.v.AddTo(src)
 						case "func":
